@@ -49,8 +49,13 @@ func stageResult(w *World, r *Report, rule string) {
 	st, _ := statusConsts(w)
 	var cl *ssa.Function
 	stageFns, _ := stageGoroutines(s)
+	rsFn := runStageFn(w)
+	rsName := "runStage"
+	if rsFn != nil {
+		rsName = rsFn.Name()
+	}
 	for _, a := range stageFns {
-		if len(findCalls(a, func(n string, _ *ssa.CallCommon) bool { return strings.HasSuffix(n, "Scheduler).runStage") })) > 0 {
+		if len(findCalls(a, func(_ string, c *ssa.CallCommon) bool { return rsFn != nil && c.StaticCallee() == rsFn })) > 0 {
 			cl = a
 		}
 	}
@@ -65,7 +70,7 @@ func stageResult(w *World, r *Report, rule string) {
 	for _, p := range res.Paths {
 		var failed, allow *bool
 		for _, l := range p.Lits {
-			if strings.Contains(l.Atom.L, "runStage(") && l.Atom.R == "nil" {
+			if strings.Contains(l.Atom.L, rsName+"(") && l.Atom.R == "nil" {
 				v := !l.Val
 				failed = &v
 			}
@@ -88,11 +93,11 @@ func stageResult(w *World, r *Report, rule string) {
 			}
 			// the result variable of the scheduling function: captured by the closure, or
 			// reached through a pointer parameter of a stage method
-			if e.Kind == "store" && (strings.HasPrefix(e.Target, "local:") || strings.HasPrefix(e.Target, "*arg")) && strings.Contains(e.Val, "runStage(") {
+			if e.Kind == "store" && (strings.HasPrefix(e.Target, "local:") || strings.HasPrefix(e.Target, "*arg")) && strings.Contains(e.Val, rsName+"(") {
 				recorded = true
 			}
 			// … or handed to a callback parameter whose closure (built at the go statement) stores it
-			if e.Kind == "call" && strings.HasPrefix(e.Target, "dyn:") && strings.Contains(e.Val, "runStage(") {
+			if e.Kind == "call" && strings.HasPrefix(e.Target, "dyn:") && strings.Contains(e.Val, rsName+"(") {
 				if c := callCommonOf(e.In); c != nil {
 					if prm, ok := w.Resolve(c.Value).(*ssa.Parameter); ok && prm.Parent() == cl {
 						idx := paramIdxOf(prm)
